@@ -153,7 +153,7 @@ def build_reply(cfg, req, varbinds, pdu_tag=rb.PDU_RESPONSE, request_id=None, er
                 community=None, version=None, msg_id=None, user=None, engine_id=None, boots=None, time=None,
                 flags=None, mac="valid", encrypt=None, salt=None, pad_bytes=None, ctx_engine_id=None,
                 max_size=65507, sec_model=3, forms=None, raw_pdu=None, raw_scoped=None, priv_params=None,
-                auth_params=None):
+                auth_params=None, ctx_name=b""):
     """Build a reply to parsed request `req`.
 
     varbinds: list of already encoded varbind TLVs (refber.varbind).
@@ -177,7 +177,7 @@ def build_reply(cfg, req, varbinds, pdu_tag=rb.PDU_RESPONSE, request_id=None, er
     u = cfg.user.encode() if user is None else user
     mid = req["msg_id"] if msg_id is None else msg_id
     ceid = eid if ctx_engine_id is None else ctx_engine_id
-    scoped = rb.scoped_pdu(ceid, b"", p) if raw_scoped is None else raw_scoped
+    scoped = rb.scoped_pdu(ceid, ctx_name, p) if raw_scoped is None else raw_scoped
     do_enc = (cfg.priv is not None) if encrypt is None else encrypt
     do_auth = cfg.auth is not None and mac != "absent"
     if flags is None:
